@@ -283,6 +283,10 @@ pub struct Trace {
     pub objects: Vec<TraceObj>,
 }
 
+/// Same capacity as the density queue of `convert` (checked at compile time).
+const MAX_NOTES_FOR_DENSITY: usize = 7;
+const _: () = assert!(MAX_NOTES_FOR_DENSITY == super::MAX_NOTES_FOR_DENSITY);
+
 /// Runs the conversion on a copy of `map` (which must be an unconverted osu! map) with a copy of the
 /// per-object loop of `convert` that calls the real generators and records what they return. The
 /// callers compare the result with the output of the real `convert`.
@@ -300,7 +304,7 @@ pub fn convert_traced(src: &Beatmap, mods: &GameMods) -> (Beatmap, Trace) {
 
     map.cs = super::target_columns(&map, mods);
 
-    let mut prev_note_times = LimitedQueue::<f64, { super::MAX_NOTES_FOR_DENSITY }>::new();
+    let mut prev_note_times = LimitedQueue::<f64, MAX_NOTES_FOR_DENSITY>::new();
     let mut density = f64::from(i32::MAX);
 
     let mut compute_density = |new_note_time: f64, d: &mut f64| {
@@ -465,4 +469,72 @@ pub fn convert_traced(src: &Beatmap, mods: &GameMods) -> (Beatmap, Trace) {
     map.is_convert = true;
 
     (map, trace)
+}
+
+/// The slider arithmetic of `PathObjectPatternGenerator::new` on a real map: constructs the real
+/// generator for a slider-like object and returns what it computed together with the three float
+/// inputs of that computation.
+#[derive(Copy, Clone, Debug)]
+pub struct PathNewProbe {
+    pub start_time: i32,
+    pub end_time: i32,
+    pub segment_duration: i32,
+    pub span_count: i32,
+    /// `expected_dist.unwrap_or(0.0)`
+    pub dist: f64,
+    /// `get_precision_adjusted_beat_len(slider_velocity, timing_beat_len)`
+    pub beat_len: f64,
+    pub slider_multiplier: f64,
+}
+
+pub fn path_new_probe(
+    map: &Beatmap,
+    start_time: f64,
+    repeats: usize,
+    expected_dist: Option<f64>,
+) -> PathNewProbe {
+    use crate::model::control_point::{DifficultyPoint, TimingPoint};
+
+    let obj = HitObject {
+        pos: Pos::new(0.0, 0.0),
+        start_time,
+        kind: HitObjectKind::Circle,
+    };
+
+    let prev = Pattern::default();
+    let mut random = Random::new(0);
+
+    let gen = PathObjectPatternGenerator::new(
+        &mut random,
+        &obj,
+        HitSoundType::from(0),
+        4,
+        &prev,
+        map,
+        repeats,
+        expected_dist,
+        &[],
+    );
+
+    let (_, span_count, start, end) = gen.verif_params();
+
+    let timing_beat_len = map
+        .timing_point_at(start_time)
+        .map_or(TimingPoint::DEFAULT_BEAT_LEN, |point| point.beat_len);
+
+    let slider_velocity = map
+        .difficulty_point_at(start_time)
+        .map_or(DifficultyPoint::DEFAULT_SLIDER_VELOCITY, |point| {
+            point.slider_velocity
+        });
+
+    PathNewProbe {
+        start_time: start,
+        end_time: end,
+        segment_duration: gen.segment_duration,
+        span_count,
+        dist: expected_dist.unwrap_or(0.0),
+        beat_len: crate::util::get_precision_adjusted_beat_len(slider_velocity, timing_beat_len),
+        slider_multiplier: map.slider_multiplier,
+    }
 }
